@@ -44,7 +44,8 @@ TrPoint ==
 
 TrEnd ==
     /\ IsEv("End")
-    /\ obs = <<>>
+    /\ Ln.failed = FALSE      \* no node of the task died
+    /\ obs = <<>>            \* the sink saw nothing the window should not have emitted
     /\ UNCHANGED <<ccfg, cst, crecv, cout, cn, obs>>
 
 TrNext == TrReset \/ TrPoint \/ TrEnd
